@@ -31,6 +31,17 @@ import (
 
 const verifRoot = "/verif"
 
+// altRepo is set (VERIF_REPO) only when the machinery is pointed at a scratch
+// worktree of go-typ/typ, e.g. to try a seeded change without touching /repo.
+// Registered commands never set it: they always build /repo's working tree.
+var (
+	altRepo     = ""
+	evidenceDir = filepath.Join(verifRoot, "evidence")
+	replayDir   = filepath.Join(verifRoot, "replays")
+	workBase    = filepath.Join(verifRoot, ".work")
+	modfile     = ""
+)
+
 type unitPlan struct {
 	Test           string  `json:"test"`
 	QuickShards    int     `json:"quick_shards"`
@@ -141,13 +152,38 @@ func main() {
 	if pl.Level == "" {
 		pl.Level = "exploration"
 	}
-	work := filepath.Join(verifRoot, ".work", prop)
+	if r := os.Getenv("VERIF_REPO"); r != "" && r != "/repo" {
+		altRepo = r
+		sum := uint32(2166136261)
+		for _, c := range []byte(r) {
+			sum = (sum ^ uint32(c)) * 16777619
+		}
+		tag := fmt.Sprintf("%08x", sum)
+		if t := os.Getenv("VERIF_ALT_TAG"); t != "" {
+			tag = t
+		}
+		workBase = filepath.Join(verifRoot, ".work", "alt-"+tag)
+		evidenceDir = filepath.Join(workBase, "evidence")
+		replayDir = filepath.Join(workBase, "replays")
+	}
+	work := filepath.Join(workBase, prop)
 	if mode == "--replay" {
-		work = filepath.Join(verifRoot, ".work", prop+".replay")
+		work = filepath.Join(workBase, prop+".replay")
 	}
 	_ = os.RemoveAll(work)
 	if err := os.MkdirAll(work, 0o755); err != nil {
 		die2("cannot create %s: %v", work, err)
+	}
+	if altRepo != "" {
+		gm, err := os.ReadFile(filepath.Join(verifRoot, "harness", "go.mod"))
+		if err != nil {
+			die2("go.mod: %v", err)
+		}
+		gm = bytes.ReplaceAll(gm, []byte("=> /repo"), []byte("=> "+altRepo))
+		modfile = filepath.Join(work, "alt.go.mod")
+		_ = os.WriteFile(modfile, gm, 0o644)
+		gs, _ := os.ReadFile(filepath.Join(verifRoot, "harness", "go.sum"))
+		_ = os.WriteFile(filepath.Join(work, "alt.go.sum"), gs, 0o644)
 	}
 	seed := int64(0)
 	if v, err := strconv.ParseInt(os.Getenv("VERIF_SEED"), 10, 64); err == nil {
@@ -240,6 +276,9 @@ func build(pl plan, work string, race bool) (string, error) {
 		args = append(args, "-race")
 	}
 	bin := filepath.Join(work, name)
+	if modfile != "" {
+		args = append(args, "-modfile="+modfile)
+	}
 	args = append(args, "-o", bin, pl.Pkg)
 	cmd := exec.Command("go", args...)
 	cmd.Dir = filepath.Join(verifRoot, "harness")
@@ -392,7 +431,7 @@ func readKnown() []knownEntry {
 }
 
 func saveReplay(prop string, ff *failFile) string {
-	dir := filepath.Join(verifRoot, "replays", prop)
+	dir := filepath.Join(replayDir, prop)
 	_ = os.MkdirAll(dir, 0o755)
 	b, _ := json.MarshalIndent(ff, "", " ")
 	sum := uint32(2166136261)
@@ -578,9 +617,9 @@ func collect(prop string, pl plan, work, mode string, seed int64, jobs []*job, w
 
 	// evidence
 	ev := buildEvidence(prop, pl, mode, seed, parts, wall, len(fails), knownLines, inconclusive)
-	_ = os.MkdirAll(filepath.Join(verifRoot, "evidence"), 0o755)
+	_ = os.MkdirAll(evidenceDir, 0o755)
 	eb, _ := json.MarshalIndent(ev, "", " ")
-	_ = os.WriteFile(filepath.Join(verifRoot, "evidence", prop+".json"), append(eb, '\n'), 0o644)
+	_ = os.WriteFile(filepath.Join(evidenceDir, prop+".json"), append(eb, '\n'), 0o644)
 
 	for _, l := range knownLines {
 		fmt.Println(l)
